@@ -34,7 +34,7 @@ RULE = ('Depth-1 systems enumerate (package, present chemicals, magnitude patter
         '(call, pair, L/V/LV branch, phases populated, #volatile, light?, heavy?).  Calls that raise a documented exception are '
         'counted as rejected, by kind.')
 ASSUMPTIONS = [
-    'packages: VLE=(Water,Ethanol,Propanol,N2[g-locked],Glucose[s-locked]); LL=(Water,1-Butanol,Octanol,EthylAcetate,Hexane,Ethanol); '
+    'packages: VLE=(Water,Ethanol,Propanol,N2[g-locked],Glucose[s-locked]); SALT=(Water,Ethanol,Propanol,NaCl[l-locked, N_solutes=2],N2[g-locked]); LL=(Water,1-Butanol,Octanol,EthylAcetate,Hexane,Ethanol); '
     'SLE=(Water,Methanol,Ethanol,Tetradecanol,Glucose); HIS=(Water,Ethanol,Octanol,Tetradecanol,N2[g],Glucose[s])',
     'value grids: T {250,300,350,400,500} K, P {1e4,101325,1e6,5e6} Pa, V {0,0.02,0.5,0.98,1}, H and S at fractions '
     '{-0.1,0,0.3,0.7,1,1.1} between the all-liquid value at the bubble point and the all-vapour value at the dew point '
@@ -59,7 +59,7 @@ TOLERANCES = {'conservation_rtol_per_chemical': 1e-9, 'conservation_atol_rel_tot
 
 def oracle(system, st, action, before, obs):
     st.extra['last_kind'] = action[0]
-    if action[0] in ('refill', 'pkg'): return       # the user replaces the material; nothing is claimed about that step
+    if action[0] in ('refill', 'pkg', 'edit', 'scale'): return       # the user changes the material; nothing is claimed about that step
     s = st.s
     after = vc.dense_by_phase(s)
     tb = sum(before['flows'].values()); ta = sum(after.values())
@@ -143,6 +143,19 @@ VLE_GRID = Grid(
                 (('Water', 'Ethanol', 'Propanol', 'N2', 'Glucose'), 'one', 'alt', ('PS', True, True)),
                 (('Water',), 'one', 'Ls', ('TH', True, True)),
                 (('Water', 'Propanol', 'Glucose'), 'hi0', 'half', ('TS', True, True))])
+
+# ---- VLE grid with a dissociating liquid-locked solute (N_solutes = 2) ---------------------------------------------------------------
+
+SALT_IDS = vc.package_ids('SALT')
+SALT_GRID = Grid(
+    'SALT', [c for c in subsets(SALT_IDS) if 'NaCl' in c and any(x in c for x in ('Water', 'Ethanol', 'Propanol'))],
+    ('one', 'big0', 'lo0'), ('one', 'big0', 'big1', 'lo0', 'hi0', 'lo-1', 'hi-1'),
+    ('l', 'half', 'Sl', 'g'),
+    lambda cfg: vle_calls(n_volatile(cfg[0], cfg[1]) == 2), vle_call_coords,
+    bases=[(('Water', 'Ethanol', 'NaCl'), 'big0', 'l', ('PV', True, True)),
+           (('Water', 'Ethanol', 'NaCl'), 'big0', 'Sl', ('TV', True, True)),
+           (('Water', 'Ethanol', 'Propanol', 'NaCl', 'N2'), 'one', 'half', ('TP', True, True))],
+    seed_bases=[(('Ethanol', 'Propanol', 'NaCl'), 'lo0', 'l', ('PH', True, True)), (('Water', 'NaCl'), 'one', 'l', ('PS', True, True))])
 
 # ---- LLE / VLLE grid --------------------------------------------------------------------------------------------------
 
@@ -276,6 +289,36 @@ def sle_his_configs(system, tier, seed):
 def sle_his_actions(system, st):
     return sle_calls(st.config)
 
+# ---- small edits between identical calls ---------------------------------------------------------------------------------------------
+# A large two-liquid / two-phase bulk with a TRACE chemical.  Actions: identical calls; 'edit' = multiply the trace chemical's flow
+# (every mole fraction moves by < 1e-5, i.e. inside LLE's composition_cache_tolerance and below every solver tolerance);
+# 'scale' = multiply all flows in place (composition identical, magnitude changed).  First action is a call, never two non-call
+# actions in a row.  The cached LLE / VLE / SLE objects keep what they remember from the first call.
+TRACE = {
+    ('LL', ('Water', 'Octanol', 'Ethanol'), (500., 500., 8e-3), 'l'):
+        ([('lle', 'T', 300., None), ('lle', 'T', 350., None), ('lle', 'Ttop', 300., 'Octanol'), ('lle', 'TP', 300., 1e6), ('vlle', 'TP', 365., 101325.)], 'Ethanol'),
+    ('LL', ('Water', 'Hexane', '1-Butanol'), (500., 500., 8e-3), 'lL'):
+        ([('lle', 'T', 300., None), ('lle', 'T', 350., None), ('lle', 'Ttop', 300., 'Water')], '1-Butanol'),
+    ('VLE', ('Water', 'Propanol', 'Ethanol', 'N2', 'Glucose'), (500., 500., 8e-3, 5., 5.), 'l'):
+        ([('vle', 'TP', 362., 101325.), ('vle', 'PV', 101325., 0.5), ('vle', 'TV', 362., 0.5), ('vle', 'PH', 101325., 0.3)], 'Ethanol'),
+    ('SALT', ('Water', 'Ethanol', 'Propanol', 'NaCl'), (500., 40., 8e-3, 40.), 'l'):
+        ([('vle', 'TP', 375., 101325.), ('vle', 'PV', 101325., 0.5), ('vle', 'TV', 375., 0.9), ('vle', 'PV', 3e5, 0.9)], 'Propanol'),
+    ('SLE', ('Water', 'Glucose', 'Ethanol'), (1000., 400., 8e-3), 'l'):
+        ([('sle', 'T', 'Glucose', 300.), ('sle', 'T', 'Glucose', 320.), ('sle', 'Tx', 'Glucose', 300., 0.0833)], 'Ethanol'),
+}
+def trace_configs(system, tier, seed):
+    c = list(TRACE)
+    k = seed % len(c)
+    return c[k:] + c[:k]
+def trace_actions(system, st):
+    calls, trace = TRACE[st.config]
+    if system.tier == 'quick': calls = calls[:3]
+    out = list(calls)
+    if st.extra.get('last_kind') not in (None, 'edit', 'scale'):
+        out += [('edit', trace, 0.125), ('edit', trace, 4.0), ('scale', 2.0), ('scale', 0.5)]
+        if system.tier != 'quick': out += [('scale', 3.0), ('edit', trace, 0.999)]
+    return out
+
 def describe_grid(grid):
     def d(tier):
         return dict(package=grid.pkg, compositions=len(grid.comps), magnitudes=list(grid.mags_q if tier == 'quick' else grid.mags_t),
@@ -284,10 +327,15 @@ def describe_grid(grid):
 
 SYSTEMS = [
     FlashSystem('c03.vle.grid', VLE_GRID.enum_configs, VLE_GRID.enum_actions, oracle, 1, 1, describe=describe_grid(VLE_GRID)),
+    FlashSystem('c03.salt.grid', SALT_GRID.enum_configs, SALT_GRID.enum_actions, oracle, 1, 1, describe=describe_grid(SALT_GRID)),
     FlashSystem('c03.lle.grid', LLE_GRID.enum_configs, LLE_GRID.enum_actions, oracle, 1, 1, describe=describe_grid(LLE_GRID)),
     FlashSystem('c03.sle.grid', SLE_GRID.enum_configs, SLE_GRID.enum_actions, oracle, 1, 1, describe=describe_grid(SLE_GRID)),
     FlashSystem('c03.sle.hist', sle_his_configs, sle_his_actions, oracle, 2, 3,
                 describe=dict(alphabet='all 26 sle calls (2 solutes x (5 T + 2 T x 4 solubilities))', configurations='SLE_HIS_CONFIGS')),
+    FlashSystem('c03.trace', trace_configs, trace_actions, oracle, 3, 3,
+                describe=dict(alphabet='3 (quick) / all identical calls per configuration + edit of a trace flow (x0.125, x4, t: x0.999) + in-place scaling (x2, x0.5, t: x3)',
+                              configurations='TRACE: bulk 1000 kmol/hr + trace 8e-3 kmol/hr on LL, VLE, SALT, SLE',
+                              rule='first action is a call; never two non-call actions in a row')),
     FlashSystem('c03.hist2', his_enum_configs, _his_actions(12, 30), oracle, 2, 2,
                 describe=dict(alphabet='first 12 (quick) / all 30 (thorough) calls of HIS_CALLS + 2 / 3 refills with another chemical subset', configurations='HIS_CONFIGS')),
     FlashSystem('c03.hist3', his_enum_configs, _his_actions(5, 8), oracle, 3, 3,
